@@ -146,6 +146,7 @@ struct VfRun {
   int odd_links() const { int n = 0; for (int i = 0; i < sr.nlinks; i++) if (sr.ps.links[i]->len & 1) n++; return n; }
   void oracle_seek(Handle &H, const Rec &op, const std::string &kind, long ret, int64_t t0, int64_t t1, bool lap);
   void oracle_open(Handle &H, long ret);
+  static float filter_gain(const Rec &op) { return op.s("kind") == "read_filter" ? (float)op.f("gain", 0.5) : 1.f; }
   void expected_int(const float *const *chan, int nch, int64_t off, int frames, int word, int sgned, int be, std::vector<uint8_t> &lo, std::vector<uint8_t> &hi, float gain = 1.f);
   void finish(Handle &H, bool twice);
   void lap_op(const Rec &op, const std::string &kind);
@@ -188,10 +189,11 @@ long VfRun::read_int(Handle &H, const Rec &op, OpRes &r) {
   r.buf.assign((size_t)std::max(0, len) + 64, 0); for (size_t i = 0; i < r.buf.size(); i++) r.buf[i] = (uint8_t)(0xC5 ^ (i * 7));
   r.t0 = ov_pcm_tell(H.vf);
   bool filt = op.s("kind") == "read_filter";
-  static int filter_calls; filter_calls = 0;
-  // a non-idempotent filter (gain 0.5, exact in binary floating point): whatever it is applied to twice, or not at all, shows in the bytes
-  auto filter = +[](float **pcm, long channels, long samples, void *p) { (*(int *)p)++; for (long c = 0; c < channels; c++) for (long i = 0; i < samples; i++) pcm[c][i] *= 0.5f; };
-  r.ret = api(filt ? "ov_read_filter" : "ov_read", [&] { return filt ? ov_read_filter(H.vf, (char *)r.buf.data(), len, be, word, sg, &r.section, filter, &filter_calls) : ov_read(H.vf, (char *)r.buf.data(), len, be, word, sg, &r.section); });
+  struct FiltArg { int calls; float gain; }; static FiltArg fa; fa.calls = 0; fa.gain = filter_gain(op);
+  // a non-idempotent filter (a power-of-two gain, exact in binary floating point): whatever it is applied to twice, or not at all, shows in the
+  // bytes; the large gains push ordinary audio far outside +-1 and beyond the int range of the conversion, in every output format
+  auto filter = +[](float **pcm, long channels, long samples, void *p) { FiltArg *a = (FiltArg *)p; a->calls++; for (long c = 0; c < channels; c++) for (long i = 0; i < samples; i++) pcm[c][i] *= a->gain; };
+  r.ret = api(filt ? "ov_read_filter" : "ov_read", [&] { return filt ? ov_read_filter(H.vf, (char *)r.buf.data(), len, be, word, sg, &r.section, filter, &fa) : ov_read(H.vf, (char *)r.buf.data(), len, be, word, sg, &r.section); });
   r.t1 = ov_pcm_tell(H.vf);
   if (r.ret > 0) h.bytes(r.buf.data(), (size_t)r.ret);
   h.i64(r.ret); h.i64(r.t1);
@@ -233,7 +235,7 @@ bool VfRun::read_explained_at(Handle &H, const OpRes &r, bool is_int, const Rec 
     int word = (int)op.i("word", 2), sg = (int)op.i("sgned", 1), be = (int)op.i("be", 0); if (word <= 0) return false;
     int frame = word * nch; if (r.ret % frame) return false; int frames = (int)(r.ret / frame); if (frames > avail) return false;
     std::vector<const float *> ch(nch); for (int c = 0; c < nch; c++) ch[c] = ref[c].data();
-    std::vector<uint8_t> lo, hi; expected_int(ch.data(), nch, off, frames, word, sg, be, lo, hi, op.s("kind") == "read_filter" ? 0.5f : 1.f);
+    std::vector<uint8_t> lo, hi; expected_int(ch.data(), nch, off, frames, word, sg, be, lo, hi, filter_gain(op));
     for (size_t i = 0; i < lo.size(); i += word) { if (std::isnan(ch[(i / (size_t)word) % (size_t)nch][off + (int64_t)(i / (size_t)frame)])) continue; bool a = !memcmp(&r.buf[i], &lo[i], word), b = !memcmp(&r.buf[i], &hi[i], word); if (!a && !b) return false; }
     return true;
   }
@@ -322,7 +324,7 @@ void VfRun::oracle_read(Handle &H, const OpRes &r, bool is_int, const Rec &op) {
     if (frames > avail) return;
     if (!skip_content) {
       auto &ref = refpcm(link, hr); std::vector<const float *> ch(nch); for (int c = 0; c < nch; c++) ch[c] = ref[c].data();
-      std::vector<uint8_t> lo, hi; expected_int(ch.data(), nch, off, frames, word, sg, be, lo, hi, op.s("kind") == "read_filter" ? 0.5f : 1.f);
+      std::vector<uint8_t> lo, hi; expected_int(ch.data(), nch, off, frames, word, sg, be, lo, hi, filter_gain(op));
       for (size_t i = 0; i < lo.size(); i++) if (r.buf[i] != lo[i] && r.buf[i] != hi[i]) {
         if (std::isnan(ch[(i / (size_t)word) % (size_t)nch][off + (int64_t)(i / (size_t)(word * nch))])) continue;   // crafted streams can decode to NaN (0 * inf in a floor-0 curve)
         // a tie affects both bytes of a 16-bit word; re-check word-wise
